@@ -20,7 +20,7 @@ INFO = {
                   'FlowCal.plot._LogicleTransform.transform_non_affine'],
     'bounds': {'quick': {'R': '2 <= R <= 2^18 (symbolic) for linear/log; logicle: R in {4,8,1000}', 'n': '1 <= n <= 2^19 (symbolic) for linear/log; logicle: n in {1,2,3,8,R}',
                          'ranges': 'symbolic reals lo < hi (hi > 0 for log)', 'channels': 2},
-               'thorough': {}},
+               'thorough': {'logicle': 'R in {4,8,16,1000}, n in {1,2,3,5,8,13,R}, edge index 0..15'}},
     'outside': ['IEEE rounding of linspace (strictness for astronomically many bins)',
                 'existence of the logicle parameter p (root finder stubbed: any p > 0)'],
     'stubs': ['scipy.optimize.root returns p = P(W) > 0, a deterministic uninterpreted function'],
@@ -205,13 +205,15 @@ def body_logicle(B, I):
     default_n = I['default_n']
     # resolution and bin count from tables (the display grid is then an eager array); the
     # edge index stays symbolic
-    Rv = LOG_R[ch.pick(I['ri'], 0, 2 if default_n else 3)]
+    deep = I.get('deep', False)
+    LR, LN = (LOG_R_DEEP, LOG_N_DEEP) if deep else (LOG_R, LOG_N)
+    Rv = LR[ch.pick(I['ri'], 0, len(LR) - 1 if default_n else len(LR))]
     I = dict(I, R0=Rv, R1=Rv)
     d, lo, hi, R = mk(B, I, events)
     c = ch.pick(I['c'], 0, 2)
-    n = None if default_n else LOG_N[ch.pick(I['ni'], 0, 4)]
+    n = None if default_n else LN[ch.pick(I['ni'], 0, len(LN))]
     nn = R[c] if default_n else n
-    i = ch.pick(I['i'], 0, 8)
+    i = ch.pick(I['i'], 0, 16 if deep else 8)
     if not (0 <= i and i < nn):
         raise Reject()               # edge index beyond the bin count: nothing to check
     kw = {}
@@ -288,15 +290,18 @@ def body_logicle(B, I):
 
 LOG_R = [4, 8, 1000]
 LOG_N = [1, 2, 3, 8]
+LOG_R_DEEP = [4, 8, 16, 1000]         # thorough tier
+LOG_N_DEEP = [1, 2, 3, 5, 8, 13]
 
 
-def make_logicle(check_mono, ov=None, c=None, dn=None):
+def make_logicle(check_mono, ov=None, c=None, dn=None, deep=False):
     def make(env):
         install(env)
         scalars.CONFIG.axioms = {'pow10': (), 'log10': (), 'logicle_p': ()}
         params = [('ri', 'int'), ('ni', 'int'), ('i', 'int')]
-        pre = ['0 <= ri <= 2', '0 <= ni <= 3', '0 <= i <= 7']
-        consts = {'check_mono': check_mono}
+        pre = ['0 <= ri <= 3', '0 <= ni <= 5', '0 <= i <= 15'] if deep else \
+            ['0 <= ri <= 2', '0 <= ni <= 3', '0 <= i <= 7']
+        consts = {'check_mono': check_mono, 'deep': deep}
         if c is None:
             params += [('c', 'int'), ('default_n', 'bool')]
             pre.append('0 <= c <= 1')
@@ -377,6 +382,7 @@ def make_lists_logicle(env):
 
 def conditions(tier):
     mods = ('plot', 'io')
+    deep = tier != 'quick'
     return [
         Cond('linear', make=make_linear, replay=std_replay(body_linear), timeout=300, modules=mods,
              doc='n+1 edges; e(i) < e(i+1) for a symbolic index; e(0) <= lo, hi <= e(n); default '
@@ -388,8 +394,8 @@ def conditions(tier):
              modules=mods, doc='default n=R: log10 e(i) + log10 e(i+1) = 2(l0 + i(l1-l0)/(R-1))'),
     ] + [
         Cond('logicle_grid_ov%d%s' % (ov, '' if c is None else '_c%d_%s' % (
-            c, 'defaultn' if dn else 'givenn')), make=make_logicle(False, ov, c, dn),
-             replay=std_replay(body_logicle), timeout=600, modules=mods,
+            c, 'defaultn' if dn else 'givenn')), make=make_logicle(False, ov, c, dn, deep),
+             replay=std_replay(body_logicle), timeout=2400 if deep else 900, modules=mods,
              doc='logicle edges = biexponential image of the uniform display grid from -d/2 to '
                  'M+d/2 with T, M, W from the documented rules or the overrides (T,M,W '
                  'overridden: %s)' % format(ov, '03b'))
@@ -398,8 +404,8 @@ def conditions(tier):
         for (c, dn) in ([(None, None)] if ov & 1 else [(0, False), (0, True), (1, False),
                                                         (1, True)])
     ] + [
-        Cond('logicle_increasing', make=make_logicle(True), replay=std_replay(body_logicle),
-             timeout=900, modules=mods, doc='logicle edges strictly increasing'),
+        Cond('logicle_increasing', make=make_logicle(True, deep=deep),
+             replay=std_replay(body_logicle), timeout=2400 if deep else 900, modules=mods, doc='logicle edges strictly increasing'),
         Cond('lists_logicle', make=make_lists_logicle, replay=std_replay(body_lists), timeout=600,
              modules=mods, doc='logicle scale, two channels of equal resolution and different '
                                'ranges: list == per-channel answers'),
